@@ -127,7 +127,7 @@ def region_lazy_path_position_readahead(**kw):
 
 def pre_doc(fn, **kw):
     for k, v in kw.items():
-        lim = {"k": len(KS), "r": len(REFS), "c": len(CH), "x": 3, "z": 2, "q": 3, "p": len(PADS), "w": len(WILDKIDS), "t": len(TAILS), "b": 2}[k[0]]
+        lim = {"k": len(KS), "r": len(REFS), "c": len(CH), "x": 3, "z": 2, "q": 3, "p": len(PADS), "w": len(WILDKIDS), "t": len(TAILS), "b": 2, "f": 2}[k[0]]
         lim = min(lim, CFG.get("lims", {}).get(k, lim))
         if not (0 <= v < lim):
             return False
@@ -167,7 +167,11 @@ def _doc(kw):
         if j == 0 and "pad" in kw:
             items.append('<!--%s-->' % ('.' * PADS[pick(kw["pad"], len(PADS))]))
     if "w" in kw:
-        items.append(WILDKIDS[pick(kw["w"], len(WILDKIDS))])
+        wk = WILDKIDS[pick(kw["w"], len(WILDKIDS))]
+        if kw.get("f"):
+            items.insert(1, wk)          # the stray child comes right after the first item, followed by the other items
+        else:
+            items.append(wk)
     return '<r xmlns:p="urn:p"%s>%s</r>' % (' bad="1"' if kw.get("b") else '', ''.join(items))
 
 
@@ -235,6 +239,28 @@ def h_lazy_decode(**kw) -> bool:
     if sorted(e.reason for e in lerrs) != sorted(e.reason for e in eerrs):
         return False
     return True
+
+
+def h_lazy_decode_items(**kw) -> bool:
+    """decode(): the data of the declared items (and their errors) are the same, whatever happens to an undeclared
+    sibling admitted by the wildcard (whose own lazy decoding is the finding C06-lazy-decode-wildcard-child)"""
+    doc = _doc(kw)
+    edata, eerrs = SCHEMA.decode(XMLResource(doc), validation='lax')
+    ldata, lerrs = SCHEMA.decode(XMLResource(doc, lazy=CFG["lazy"], thin_lazy=CFG["thin"]), validation='lax')
+    ldata, lerrs = _materialise(ldata, lerrs)
+    if not isinstance(ldata, dict) or not isinstance(edata, dict):
+        return False
+    if ldata.get('i') != edata.get('i'):
+        return False
+    skip = "is not an element of the schema"
+    return sorted(e.reason for e in lerrs if skip not in e.reason) == sorted(e.reason for e in eerrs if skip not in e.reason)
+
+
+def region_lazy_after_stray_global_declaration(**kw):
+    """known finding C06-lazy-after-stray-global-declaration: a wildcard-matched child with xsi:type stands before a
+    declared item"""
+    kw = _with_fixed(kw)
+    return kw.get("w") in (2, 3) and kw.get("f") == 1
 
 
 def h_iter(**kw) -> bool:
@@ -325,9 +351,15 @@ def obligations(tier, seed):
                         "config": {"n": 1, "lazy": 1, "thin": True, "lims": {"c0": 3}}, "timeout": 600 if quick else 2000, "twin_timeout": 40,
                         "bound": "the same documents: verdict and multiset of reasons (whole domain, no exclusions)"})
         if n == 2:
-            out.append({"name": "errors-chunked/lazy1/n2", "fn": "h_lazy", "pre": "pre_doc",
+            for fn, label in (("h_lazy_decode_items", "decode-items"), ("h_lazy_reasons", "reasons")):
+                out.append({"name": "%s-stray/lazy1/n2" % label, "fn": fn, "pre": "pre_doc",
+                            "args": [["w", "int"], ["f", "int"], ["c1", "int"]],
+                            "config": {"n": 2, "lazy": 1, "thin": True, "fixed": {"c0": 0}, "lims": {"c1": 3}}, "timeout": 600 if quick else 2000, "twin_timeout": 40,
+                            "bound": "2 items and an undeclared child (4 variants) after the first or after the last item"})
+        for thin_c in ((True, False) if n == 2 else ()):
+            out.append({"name": "errors-chunked/lazy1/n2/%s" % ("thin" if thin_c else "full"), "fn": "h_lazy", "pre": "pre_doc",
                         "args": [["pad", "int"], ["k0", "int"], ["k1", "int"], ["r1", "int"]],
-                        "config": {"n": 2, "lazy": 1, "thin": True, "fixed": {"c0": 0, "c1": 0}}, "timeout": 600 if quick else 2000, "twin_timeout": 40,
+                        "config": {"n": 2, "lazy": 1, "thin": thin_c, "fixed": {"c0": 0, "c1": 0}}, "timeout": 600 if quick else 2000, "twin_timeout": 40,
                         "bound": "2 items separated by a comment of %r characters (the second item lies beyond the parser's first read block), keys %r, keyref %r" % (PADS, KS, REFS)})
         args2 = [] if n else [["z", "int"]]
         for j in range(n):
